@@ -58,3 +58,28 @@ Theorem C10_no_crash_means_same : forall e k c um cmd w,
   run e c um cmd w = run (nofault e) c um cmd w.
 Proof. exact no_crash_means_same. Qed.
 Print Assumptions C10_no_crash_means_same.
+
+(* ---- stagemaker half (model: coq/Model/StageOut.v; partial by nature: archive/tar, the
+   compressors and the kernel's write(2) are represented by the chunk/sink abstraction) ---- *)
+From LC Require Import Model.StageOut Proofs.StageOutP.
+Open Scope N_scope.
+
+Theorem C10_stage_fault_reported : forall k chunks, k < total chunks -> exit_ok (SLimit k) chunks = false.
+Proof. exact stage_fault_reported. Qed.
+Print Assumptions C10_stage_fault_reported.
+
+Theorem C10_stage_always_failing_reported : forall chunks, 0 < total chunks -> exit_ok SAlwaysFail chunks = false.
+Proof. exact stage_always_failing_reported. Qed.
+Print Assumptions C10_stage_always_failing_reported.
+
+Theorem C10_stage_compressor_failure_reported : forall chunks, exit_ok SBadCompressor chunks = false.
+Proof. exact stage_compressor_failure_reported. Qed.
+Print Assumptions C10_stage_compressor_failure_reported.
+
+Theorem C10_stage_ok_means_all_written : forall s chunks, exit_ok s chunks = true -> write_all s 0 chunks = Some (total chunks).
+Proof. exact stage_ok_means_all_written. Qed.
+Print Assumptions C10_stage_ok_means_all_written.
+
+Theorem C10_stage_exit_by_size : forall s chunks, exit_ok s chunks = exit_ok_by_size s (total chunks).
+Proof. exact exit_ok_is_by_size. Qed.
+Print Assumptions C10_stage_exit_by_size.
